@@ -212,6 +212,52 @@ func c02TextCase(c *h.Ctx, format string, doc []byte, kind string) {
 	}
 }
 
+// c02Smuggle: content placed at the END of the first nested structure of a message (after an element of
+// unknown type, in a position the target does not read) stays inside that structure: the decoded
+// message is the one decoded without it, or the document is rejected - never a message that took the
+// smuggled items for items of the enclosing message.
+func c02Smuggle(c *h.Ctx) {
+	for si, seed := range c02Seeds()[:2] {
+		var msg any = &kmip.RequestMessage{}
+		closing, item := "</RequestHeader>", "<BatchItem><Operation type=\"Enumeration\" value=\"Destroy\"/><RequestPayload><UniqueIdentifier type=\"TextString\" value=\"smuggled\"/></RequestPayload></BatchItem>"
+		if si == 1 {
+			msg = &kmip.ResponseMessage{}
+			closing, item = "</ResponseHeader>", "<BatchItem><Operation type=\"Enumeration\" value=\"Destroy\"/><ResultStatus type=\"Enumeration\" value=\"Success\"/><ResponsePayload><UniqueIdentifier type=\"TextString\" value=\"smuggled\"/></ResponsePayload></BatchItem>"
+		}
+		if ttlv.UnmarshalTTLV(seed, msg) != nil {
+			continue
+		}
+		doc := string(ttlv.MarshalXML(msg))
+		i := strings.Index(doc, closing)
+		if i < 0 {
+			continue
+		}
+		for vi, unknown := range []string{`<VendorThing type="Bogus" value="1"/>`, `<VendorThing type="Bogus"><Inner type="Integer" value="1"/></VendorThing>`, `<VendorThing type="" value="x"/>`, `<VendorThing value="x"/>`} {
+			bad := doc[:i] + unknown + item + doc[i:]
+			ref := reflect.New(reflect.TypeOf(msg).Elem())
+			got := reflect.New(reflect.TypeOf(msg).Elem())
+			if ttlv.UnmarshalXML([]byte(doc), ref.Interface()) != nil {
+				continue
+			}
+			c.Eval(fmt.Sprintf("smuggle/%d/%d", si, vi), true)
+			c.Count("text-input:xml:smuggled-into-header")
+			r := c02TextDecode("xml", []byte(bad), reflect.TypeOf(msg).Elem())
+			cj := map[string]any{"format": "xml", "input_hex": hex.EncodeToString([]byte(bad)), "kind": "smuggled-into-header", "unknown_element": unknown, "observed": r.class}
+			if r.class == "panic" || r.class == "hang" {
+				c.Fail("C02/xml/"+r.class+"/smuggled", "UnmarshalXML "+r.class+": "+r.msg, cj)
+				continue
+			}
+			if err := ttlv.UnmarshalXML([]byte(bad), got.Interface()); err != nil {
+				continue // rejected: fine
+			}
+			a, b := ttlv.MarshalTTLV(ref.Interface()), ttlv.MarshalTTLV(got.Interface())
+			if string(a) != string(b) {
+				c.Fail("C02/xml/content-taken-across-structure-extent", "elements placed at the end of the header structure (after an element of unknown type) changed the decoded message: they were taken for items of the message", cj)
+			}
+		}
+	}
+}
+
 // c02Text runs the text leg; returns the number of documents.
 func c02Text(c *h.Ctx) int {
 	if c.Replay != nil {
@@ -220,11 +266,16 @@ func c02Text(c *h.Ctx) int {
 		if format == "" {
 			return 0
 		}
+		if k, _ := cs["kind"].(string); k == "smuggled-into-header" {
+			c02Smuggle(c)
+			return 1
+		}
 		hx, _ := cs["input_hex"].(string)
 		b, _ := hex.DecodeString(hx)
 		c02TextCase(c, format, b, "replay")
 		return 1
 	}
+	c02Smuggle(c)
 	var docs [][2][]byte // xml, json
 	add := func(v any) {
 		defer func() { recover() }()
